@@ -113,8 +113,11 @@ def create_stub_files(
             f.write(module_text)
 
         # Classes which are treated as classes from outside the package must not replace this file, they are added to it
-        if corrected_module_dir.name == public_module_name:
-            created_module_paths.add(corrected_module_dir.relative_to(out_path).as_posix())
+        relative_module_dir = module_dir.relative_to(out_path)
+        if is_package_module:
+            relative_module_dir = relative_module_dir.parent
+        if relative_module_dir.name == public_module_name:
+            created_module_paths.add(relative_module_dir.as_posix())
 
     classes_outside_package = list(stubs_generator.classes_outside_package)
     classes_outside_package.sort()
